@@ -768,4 +768,14 @@ pub const fn pow_bounded_exp<const RHS_LIMBS: usize>(
 }
 //@@ end
 
+// KNOWN FINDING F13 (see /verif/known_findings.json): expected to FAIL. The property's claim is that the constructed
+// parameters equal their definitions for EVERY odd modulus including m = 1; the code sets one = (MAX mod m) + 1 = 1 for
+// m = 1 although R mod 1 = 0, so `one` (and MontyForm::one(p)) is not canonical (1 >= m).
+// Witness: MontyParams::<2>::new_vartime(Odd(1)).one == 1.
+proof fn known_finding_C08_F13<const LIMBS: usize>(modulus: Odd<Uint<LIMBS>>, p: MontyParams<LIMBS>)
+    requires 1 <= LIMBS < 0x400_0000, modulus.0.v() % 2 == 1,
+        call_ensures(MontyParams::<LIMBS>::new_vartime, (modulus,), p)
+    ensures p.wf()
+{ }
+
 } // verus!
